@@ -77,7 +77,7 @@ type SigIn struct {
 }
 
 type BidIn struct {
-	Kind    string `json:"kind"` // err | hang | nodata | empty | bid
+	Kind    string `json:"kind"`            // err | hang | nodata | empty | bid
 	Value   uint64 `json:"value,omitempty"` // version (value mod 3: Bellatrix, Capella, Deneb) and header are derived from the value: equal values, equal bids
 	FeeZero bool   `json:"fee_zero,omitempty"`
 	BadTime bool   `json:"bad_time,omitempty"`
@@ -845,7 +845,8 @@ func genBidSeq(r *Rand) *BidSeqIn {
 	in := &BidSeqIn{Trace: r.Chance(1, 6)}
 	nrel := r.Range(1, 4)
 	nauc := r.Range(2, 4)
-	family := r.Intn(6)
+	family := r.Intn(8)
+	fixedSig := r.Intn(2) // the malformed signature family 6 repeats
 	tmpl := make([]relayTemplate, nrel)
 	for i := range tmpl {
 		tp := relayTemplate{id: i, client: "full", present: 7}
@@ -901,6 +902,27 @@ func genBidSeq(r *Rand) *BidSeqIn {
 			case family == 2 && r.Chance(1, 3):
 				// the key changes between auctions (a refreshed configuration): from or to a key that is none
 				e.CfgKey = genKey(r, tp.id+1)
+			case family == 5 && tp.client == "full":
+				// the relay's key changes from auction to auction between the key it signs with and another
+				// valid one (a refreshed configuration), while its bids stay acceptable and signed by itself
+				k := &KeyIn{Kind: "signer", N: tp.id + 1}
+				if (ai+tp.id)%2 == 1 {
+					k = &KeyIn{Kind: "signer", N: []int{tp.id + 2, 900, 901, 902 + tp.id}[r.Intn(4)]}
+				}
+				if tp.id%2 == 0 {
+					e.CfgKey, e.ProvKey = k, nil
+				} else {
+					e.CfgKey, e.ProvKey = nil, k
+				}
+				e.MinValue = 0
+				e.Bid = BidIn{Kind: "bid", Value: value, Sig: SigIn{Kind: "by", N: tp.id + 1}}
+			case family == 6 && tp.id == 0:
+				// the same 96 bytes that are no signature, auction after auction, from a relay with a proper key
+				e.Client, e.MinValue = "full", 0
+				if e.effective() == nil || e.effective().Kind != "signer" {
+					e.CfgKey = &KeyIn{Kind: "signer", N: 1}
+				}
+				e.Bid = BidIn{Kind: "bid", Value: value, Sig: SigIn{Kind: "malformed", N: fixedSig}}
 			case family == 3:
 				// good signature in one auction, a bad one in the next (and the other way round)
 				if (ai+tp.id)%2 == 1 {
